@@ -31,6 +31,9 @@ BAND = 1e-3
 TOL = 2e-5
 
 
+SCALES = [0.01, 0.05, 30.0, 300.0]
+
+
 def gen_cases(seed, tier):
     rng = np.random.default_rng([seed, 5])
     n = 320 if tier == "quick" else 10000
@@ -50,6 +53,11 @@ def gen_cases(seed, tier):
             dom = gen_geo.flip_parallelogram(rng, kinds=("parallelogram", "triangle"))
         else:
             dom = gen_geo.gen_domain(rng, max_depth=int(rng.integers(1, depth + 1)))
+            if i % 6 == 1 and "product" not in geo.spec_ops(dom["spec"]):
+                # the same expression at another length scale (membership must not depend on absolute tolerances)
+                S = float(SCALES[(i // 6) % len(SCALES)])
+                dom["spec"] = geo.scale_spec(dom["spec"], S)
+                dom["info"] = dict(dom["info"], scale=S)
         cases.append({"spec": dom["spec"], "rows": dom["rows"], "info": dom["info"], "k": dom["k"],
                       "seed": int(rng.integers(0, 2 ** 31)), "nq": 300 if tier == "quick" else 600})
     return cases
@@ -136,7 +144,7 @@ def run_case(case):
     nq = case["nq"]
     shape = "".join(c for c in info["desc"] if not c.isdigit())
     res["cls"] = "%s|%s|%s" % (shape, _kcls(k), "dep" if info["dep"] else "const")
-    mech0 = {"root": info["kind"], "dep": bool(info["dep"]), "k": _kcls(k)}
+    mech0 = {"root": info["kind"], "dep": bool(info["dep"]), "k": _kcls(k), "scale": info.get("scale", 1.0)}
     names_dims = node.space()
     dim = node.dim()
     # parameter row of each query row: shuffled (not block-wise) so that row-wise evaluation is observable
